@@ -183,6 +183,54 @@ class Matrix(Item):
         return rng.integers(lo, hi, size=(r, c))
 
 
+class NDInput(Item):
+    """an integer-valued numpy input of rank 1-3 with a stated dtype ("int" / "float"): the dtype decides whether
+    np.asarray(x, dtype=...) aliases x (numpy semantics), so frame contracts are checked for both"""
+
+    def __init__(self, name, shape, dtype="int", bits=False):
+        self.name, self.shape, self.dtype, self.bits = name, tuple(shape), dtype, bits
+
+    def _fn(self):
+        return z3.Function(self.name, *([z3.IntSort()] * len(self.shape)), z3.BoolSort() if self.bits else z3.IntSort())
+
+    def symbolic(self, I):
+        F = self._fn()
+        if self.bits:
+            a = new_array(self.shape, lambda *i: z3.If(F(*i), z3.IntVal(1), z3.IntVal(0)), self.name)
+        else:
+            a = new_array(self.shape, lambda *i: F(*i), self.name)
+        a.store.dtype = self.dtype
+        return a
+
+    def _np(self, vals):
+        return np.array(vals, dtype=int).astype(float if self.dtype == "float" else int)
+
+    def concrete(self, model, env):
+        import itertools
+
+        F = self._fn()
+        dims = [_ev(model, d) if not isinstance(d, int) else d for d in self.shape]
+        if any(d > MAXDIM * 2 for d in dims):
+            raise ValueError("witness too large")
+        out = np.zeros(dims, dtype=int)
+        for idx in itertools.product(*[range(d) for d in dims]):
+            v = _ev(model, F(*idx))
+            out[idx] = (1 if v else 0) if self.bits else v
+        return self._np(out)
+
+    def random(self, rng, env):
+        dims = [d if isinstance(d, int) else _rand_eval(d, rng, env) for d in self.shape]
+        return self._np(rng.integers(0, 2, size=dims) if self.bits else rng.integers(-1, 3, size=dims))
+
+    def const(self, I, conc):
+        a = const_nd(np.asarray(conc).astype(int))
+        a.store.dtype = self.dtype
+        return a
+
+    def jsonable(self, conc):
+        return {"dtype": self.dtype, "values": np.asarray(conc).tolist()}
+
+
 def const_nd(a):
     a = np.asarray(a)
     if a.ndim == 1:
@@ -195,6 +243,16 @@ def const_nd(a):
             return t
 
         return new_array((len(vals),), f1, "c1")
+    if a.ndim >= 3:  # general rank: nested If-chain over the flattened index
+        flat = {idx: int(a[idx]) for idx in np.ndindex(*a.shape)}
+
+        def fn(*ix):
+            t = z3.IntVal(0)
+            for idx, v in reversed(list(flat.items())):
+                t = z3.If(z3.And(*[to_z3(i) == k for i, k in zip(ix, idx)]), z3.IntVal(v), t)
+            return t
+
+        return new_array(tuple(a.shape), fn, f"c{a.ndim}")
     rows = [[int(x) for x in r] for r in a]
 
     def f2(i, j):
